@@ -7,6 +7,7 @@
   kept for the counterexample theorems.
 -/
 import Nervus.Proofs.Txn
+import Nervus.Proofs.Savepoint
 namespace Nervus.Props.C13
 open Nervus.Txn Nervus.Spec.TxnSem
 
@@ -90,5 +91,44 @@ theorem pinned_tree_partial (σ : State) (ops : List Op) (htrig : anyPartialEffe
 theorem pinned_tree_violates : ¬ (∀ (σ : State) (ops : List Op), legacyRun σ ops = atomicRun σ ops) := fun h => by
   have := h State.init witness
   exact absurd this (by decide)
+
+
+/-! ### the savepoint mechanism: "restore the staged state as of the savepoint"
+
+  `step true _` above models `rollback_to` as exactly that.  Two mechanisms implement it: keeping a copy (what
+  `WriteTxn::savepoint` does today — regenerated), or an undo journal of previous slot contents replayed
+  newest-first.  They are the same function for every sequence of writes, however often a slot is written;
+  replaying the journal oldest-first is not. -/
+
+section Mechanism
+open Nervus.Savepoint
+
+/-- what the source does today (regenerated; the recogniser rejects a journal that is not replayed newest-first) -/
+theorem savepoint_mechanism_is_sound :
+    Generated.txnSavepointMechanism = "clone" ∨ Generated.txnSavepointMechanism = "journalNewestFirst" := by decide
+
+/-- **any correct undo is the clone restore**: for every staged state at the savepoint and every sequence of writes
+    the failed statement made (same slot any number of times), replaying the journal of previous contents
+    newest-first gives back exactly the state the clone-based savepoint restores. -/
+theorem journal_undo_equals_clone_restore (saved : Store) (ws : Writes) :
+    undoNewestFirst (applyWrites saved ws) (journal saved ws) = restoreClone saved (applyWrites saved ws) :=
+  undo_newest_first_restores ws saved
+
+/-- **counterexample (the shape of seeded fault C13-seed2)**: a statement writes slot 1 twice (5, then 7) and fails;
+    replaying the journal oldest-first leaves the statement's FIRST write (5) in the slot instead of the content at
+    the savepoint (nothing). -/
+theorem counterexample_oldest_first_replay :
+    let saved : Store := fun _ => none
+    let ws : Writes := [(1, some 5), (1, some 7)]
+    undoOldestFirst (applyWrites saved ws) (journal saved ws) 1 = some 5 ∧
+      undoNewestFirst (applyWrites saved ws) (journal saved ws) 1 = none := by
+  decide
+
+/-- oldest-first is only right when no slot is written twice (one write: both orders coincide) -/
+example (saved : Store) (s : Nat) (v : Option Nat) :
+    undoOldestFirst (applyWrites saved [(s, v)]) (journal saved [(s, v)]) = saved :=
+  undo_newest_first_restores [(s, v)] saved
+
+end Mechanism
 
 end Nervus.Props.C13
